@@ -88,6 +88,8 @@ def option_matrix(ctx, broken):
         om = tr["spec"]["om"]
         per_mode[om["mode"]] = per_mode.get(om["mode"], 0) + 1
         touched.update(om["options"])
+        if tr.get("exc") and tr["exc"][0] == "RunTimeout":
+            ctx.coverage["option_matrix_inconclusive_wall_clock"] = ctx.coverage.get("option_matrix_inconclusive_wall_clock", 0) + 1
         for key, what in OM.monitor(tr):
             hits.setdefault(key, 0)
             hits[key] += 1
